@@ -546,3 +546,21 @@ _ADDED3 = {'C01': ' Round 6: linear ramps starting at up to 2e7 hits/s with slop
     'C20': ' Round 6: C20.aging (hours of virtual time between batches, go1.26.8 bubble), thousands of distinct label sets.'}
 for _k, _v in _ADDED3.items():
     PROPS[_k]["rule"] += _v
+
+_ADDED4 = {'C01': ' Round 7: flat fast ramps followed for long; the upper bound grants linear and sine pacers two nanoseconds in all.',
+    'C02': " Round 7: short client timeouts among the neutral options; C02.loop (the C04 loop, for 'the attack ends'); dialpath with body tails arriving late beyond MaxBody.", 'C03': ' Round 7: C03.realpacer - real rate pacers with Timeout/MaxConnections on the virtual clock, nothing consumed for a while.',
+    'C04': " Round 7: client timeouts shorter than the pacer's waits.", 'C05': ' Round 7: body tails arriving late beyond MaxBody against the real transport.',
+    'C06': ' Round 7: five kinds of body read errors, max-body up to MaxInt64.',
+    'C07': ' Round 7: Unicode blanks in header values.',
+    'C08': ' Round 7: delimiter-heavy multi-line texts; thousands of results into a pipe whose reader starts late.',
+    'C09': ' Round 7: C09.pair - a killed file read round-robin with an intact one.',
+    'C10': ' Round 7: dozens of recurring error texts.',
+    'C11': ' Round 7: zero latencies only after an intermediate Close.',
+    'C13': ' Round 7: an input named twice; -every over pausing pipes.',
+    'C15': ' Round 7: CR LF documents read in tiny chunks.',
+    'C16': ' Round 7: literals inside JSON value lists.',
+    'C17': ' Round 7: one Result variable overwritten for every arrival.',
+    'C18': ' Round 7: C18.h2c (ConnectTo then H2C).',
+    'C20': ' Round 7: a rarely observed label set over 200 000+ results, failure messages beyond 256 bytes.'}
+for _k, _v in _ADDED4.items():
+    PROPS[_k]["rule"] += _v
